@@ -458,7 +458,25 @@ fn main() {
         if case.recs.iter().any(|r| r.timing != rec0.timing) { cnt.inc("timing_ambiguous"); }
         let mut canon: Option<(String, Option<cgtv::summary::RepSum>)> = None;
         for r in variants(&args.variants, &bases, case_no) {
-            let txs = render(rec0, &r);
+            let mut txs = render(rec0, &r);
+            if r.lower {
+                // ticker (and keyword) case only exists in the input formats: go through the real
+                // parser with the whole text lower-cased
+                let text = to_dsl(&txs).to_lowercase();
+                match guarded(|| cgt_core::parser::parse_file(&text).map_err(|e| e.to_string())) {
+                    Ok(Ok(t)) => txs = t,
+                    Ok(Err(e)) => {
+                        findings.push(Finding { prop: "C13".into(), kind: "lowercase_rejected".into(), case: case_no,
+                            detail: format!("lower-cased rendering rejected by the parser: {e}"), input: text, data: json!({}) });
+                        continue;
+                    }
+                    Err(p) => {
+                        findings.push(Finding { prop: "C15".into(), kind: "panic".into(), case: case_no,
+                            detail: format!("parser panicked: {p}"), input: text, data: json!({}) });
+                        continue;
+                    }
+                }
+            }
             let cfg = &config;
             let t2 = txs.clone();
             cgt_core::verif::start();
